@@ -201,4 +201,7 @@ func main() {
 	genFsPaths(repo, out)
 	genNondetSites(repo, out)
 	genArchTables(repo, out)
+	genScriptSlots(repo, out)
+	genRpmFlags(repo, out)
+	genStrFns(repo, out)
 }
